@@ -4,6 +4,7 @@ package rules
 import (
 	"fmt"
 	"go/ast"
+	"go/token"
 	"go/types"
 	"sort"
 	"strings"
@@ -176,7 +177,7 @@ func (c *Ctx) region(f *core.Func) []*core.Func {
 		var cands []*core.Func
 		for g := range in {
 			for h := range cg.Edges[g] {
-				if !in[h] && h.Decl != nil && h.Pkg == f.Pkg && h.Obj != nil && !h.Obj.Exported() && !h.Generated {
+				if !in[h] && h.Decl != nil && h.Pkg == f.Pkg && h.Obj != nil && !h.Generated {
 					cands = append(cands, h)
 				}
 			}
@@ -185,7 +186,7 @@ func (c *Ctx) region(f *core.Func) []*core.Func {
 			if in[h] {
 				continue
 			}
-			calls, complete := c.callSitesOf(h)
+			calls, complete := c.callSites(h, true)
 			if !complete || len(calls) == 0 {
 				continue
 			}
@@ -335,11 +336,40 @@ func (c *Ctx) callsReporter(info *types.Info, n ast.Node) bool {
 // `return g(…)` (or `g(…)` for a function without results) with g declared in
 // the same package; nil otherwise.
 func (c *Ctx) delegateOf(f *core.Func) *core.Func {
-	if f == nil || f.Decl == nil || f.Body == nil || len(f.Body.List) != 1 {
-		return nil
+	g, _ := c.delegate(f)
+	return g
+}
+
+// delegate is delegateOf that also accepts a leading declaration of a zero
+// value on which the method is then called (`var g Globber; return
+// g.Glob(pattern)`); zero reports that form.
+func (c *Ctx) delegate(f *core.Func) (target *core.Func, zero bool) {
+	if f == nil || f.Decl == nil || f.Body == nil || len(f.Body.List) == 0 || len(f.Body.List) > 2 {
+		return nil, false
+	}
+	var zeroVar types.Object
+	if len(f.Body.List) == 2 {
+		info := f.Info()
+		switch st := f.Body.List[0].(type) {
+		case *ast.DeclStmt:
+			if gd, ok := st.Decl.(*ast.GenDecl); ok && gd.Tok == token.VAR && len(gd.Specs) == 1 {
+				if vs, ok := gd.Specs[0].(*ast.ValueSpec); ok && len(vs.Names) == 1 && len(vs.Values) == 0 {
+					zeroVar = info.Defs[vs.Names[0]]
+				}
+			}
+		case *ast.AssignStmt:
+			if st.Tok == token.DEFINE && len(st.Lhs) == 1 && len(st.Rhs) == 1 {
+				if id, ok := st.Lhs[0].(*ast.Ident); ok && isZeroValueExpr(info, st.Rhs[0]) {
+					zeroVar = info.Defs[id]
+				}
+			}
+		}
+		if zeroVar == nil {
+			return nil, false
+		}
 	}
 	var call *ast.CallExpr
-	switch st := f.Body.List[0].(type) {
+	switch st := f.Body.List[len(f.Body.List)-1].(type) {
 	case *ast.ReturnStmt:
 		if len(st.Results) == 1 {
 			call, _ = ast.Unparen(st.Results[0]).(*ast.CallExpr)
@@ -348,17 +378,128 @@ func (c *Ctx) delegateOf(f *core.Func) *core.Func {
 		call, _ = st.X.(*ast.CallExpr)
 	}
 	if call == nil {
-		return nil
+		return nil, false
 	}
 	fo := core.StaticCallee(f.Info(), call)
 	if fo == nil {
-		return nil
+		return nil, false
 	}
 	g := c.P.FuncOf(fo)
 	if g == nil || g == f || g.Pkg != f.Pkg || g.Body == nil || g.Generated {
-		return nil
+		return nil, false
 	}
-	return g
+	if se, ok := ast.Unparen(call.Fun).(*ast.SelectorExpr); ok {
+		recv := ast.Unparen(se.X)
+		if zeroVar != nil {
+			id, isID := recv.(*ast.Ident)
+			if !isID || f.Info().Uses[id] != zeroVar {
+				return nil, false
+			}
+			return g, true
+		}
+		if isZeroValueExpr(f.Info(), recv) {
+			return g, true
+		}
+	} else if zeroVar != nil {
+		return nil, false
+	}
+	return g, false
+}
+
+// isZeroValueExpr: T{}, &T{}, new(T).
+func isZeroValueExpr(info *types.Info, e ast.Expr) bool {
+	e = ast.Unparen(e)
+	if u, ok := e.(*ast.UnaryExpr); ok && u.Op == token.AND {
+		e = ast.Unparen(u.X)
+	}
+	switch x := e.(type) {
+	case *ast.CompositeLit:
+		return len(x.Elts) == 0
+	case *ast.CallExpr:
+		return isBuiltinCall(info, x, "new") && len(x.Args) == 1
+	}
+	return false
+}
+
+// zeroReceiver reports whether method m runs, as far as the module itself is
+// concerned, only on a zero value of its receiver type: every call of m in the
+// module is the delegation of a wrapper that has just declared that value, and
+// no function of the module assigns a field of the type or builds a non-empty
+// literal of it.  (Callers outside the module may set the fields; they use an
+// interface the properties do not speak about.)
+func (c *Ctx) zeroReceiver(m *core.Func) bool {
+	if m == nil || m.Decl == nil || m.Decl.Recv == nil || len(m.Decl.Recv.List) != 1 {
+		return false
+	}
+	key := "zeroReceiver:" + m.Name
+	if v, ok := c.cache[key]; ok {
+		return v.(bool)
+	}
+	c.cache[key] = false
+	calls, complete := c.callSites(m, true)
+	if !complete || len(calls) == 0 {
+		return false
+	}
+	for _, cs := range calls {
+		if t, zero := c.delegate(cs.in); t != m || !zero {
+			return false
+		}
+	}
+	rt := m.Info().TypeOf(m.Decl.Recv.List[0].Type)
+	if p, ok := rt.(*types.Pointer); ok {
+		rt = p.Elem()
+	}
+	st, ok := rt.Underlying().(*types.Struct)
+	if !ok {
+		return false
+	}
+	fields := map[*types.Var]bool{}
+	for i := 0; i < st.NumFields(); i++ {
+		fields[st.Field(i)] = true
+	}
+	for _, f := range c.P.Funcs {
+		if f.Pkg.Types.Path() != m.Pkg.Types.Path() && !ast.IsExported(rt.String()) {
+			continue
+		}
+		info := f.Info()
+		written := false
+		f.OwnNodes(func(n ast.Node) bool {
+			switch x := n.(type) {
+			case *ast.AssignStmt:
+				for _, l := range x.Lhs {
+					if v := core.FieldOf(info, l); v != nil && fields[v] {
+						written = true
+					}
+				}
+			case *ast.IncDecStmt:
+				if v := core.FieldOf(info, x.X); v != nil && fields[v] {
+					written = true
+				}
+			case *ast.UnaryExpr:
+				if x.Op == token.AND {
+					if v := core.FieldOf(info, x.X); v != nil && fields[v] {
+						written = true
+					}
+				}
+			case *ast.CompositeLit:
+				if tv, has := info.Types[x]; has && tv.Type != nil && len(x.Elts) > 0 {
+					t := tv.Type
+					if p, isPtr := t.(*types.Pointer); isPtr {
+						t = p.Elem()
+					}
+					if types.Identical(t, rt) {
+						written = true
+					}
+				}
+			}
+			return !written
+		})
+		if written {
+			return false
+		}
+	}
+	c.cache[key] = true
+	return true
 }
 
 // effective follows delegateOf to the function that does the work.
